@@ -156,7 +156,8 @@ func c08Build(in c08Input) *c08World {
 	for i, s := range in.Species {
 		sp := genetics.NewSpecies(s.Id)
 		for j, m := range s.Members {
-			o, _ := genetics.NewOrganism(1.0, c07Genome(m.Key, m.Genes, m.Key%2 == 0), 1)
+			// fitness values differ inside a species (speciation compares with the FIRST member whatever its fitness)
+			o, _ := genetics.NewOrganism(float64((m.Key*7)%11), c07Genome(m.Key, m.Genes, m.Key%2 == 0), 1)
 			o.Species = sp
 			sp.Organisms = append(sp.Organisms, o)
 			w.pop.Organisms = append(w.pop.Organisms, o)
@@ -167,7 +168,7 @@ func c08Build(in c08Input) *c08World {
 		w.pop.Species = append(w.pop.Species, sp)
 	}
 	for _, b := range in.Batch {
-		o, _ := genetics.NewOrganism(0.0, c07Genome(b.Key, b.Genes, b.Key%2 == 0), 1)
+		o, _ := genetics.NewOrganism(float64((b.Key*5)%7), c07Genome(b.Key, b.Genes, b.Key%2 == 0), 1)
 		w.batch = append(w.batch, o)
 	}
 	return w
